@@ -8,9 +8,11 @@ import (
 	"context"
 	"encoding/json"
 	"fmt"
+	"k3l.io/go-eigentrust/pkg/sparse"
 	"net/http"
 	"net/http/httptest"
 	"runtime/debug"
+	"sort"
 	"strings"
 	"time"
 
@@ -349,11 +351,14 @@ func runOapiCompute(prop string) func(h *H) {
 		g := h.g
 		env := newOapiEnv()
 		n := h.budget(400, 8000)
+		if prop == "C08" {
+			n = h.budget(200, 4000)
+		}
 		wd := 20 * time.Second
 		outcomes := map[string]int{}
 		for k := 0; k < n; k++ {
 			r := g.validOReq(prop != "C02")
-			if prop == "C03" && k%5 == 0 { // stored reference resolving to the same matrix
+			if (prop == "C03" && k%5 == 0) || (prop == "C08" && k%2 == 0) { // stored reference resolving to the same matrix
 				id := fmt.Sprintf("m%d", k)
 				put := env.do("PUT", "/local-trust/"+id, mustJSON(r.lt.inlineJSON()), wd)
 				if put.status == 201 || put.status == 200 {
@@ -462,7 +467,12 @@ func runC13(h *H) {
 			steps += 5
 			g.count("scripted:empty-large-then-merge-smaller")
 		}
-		for s := 0; s < steps-func() int { if k%8 == 5 { return 5 }; return 0 }(); s++ {
+		for s := 0; s < steps-func() int {
+			if k%8 == 5 {
+				return 5
+			}
+			return 0
+		}(); s++ {
 			id := ids[g.intn(len(ids))]
 			switch g.intn(7) {
 			case 0, 1, 2:
@@ -524,6 +534,9 @@ func runC14(h *H) {
 	env := newOapiEnv()
 	for k := 0; k < n; k++ {
 		r := g.validOReq(true)
+		if k%2 == 1 {
+			g.stochasticRows(&r.lt)
+		}
 		id := fmt.Sprintf("s%d", k%7)
 		put := env.do("PUT", "/local-trust/"+id, mustJSON(r.lt.inlineJSON()), wd)
 		if put.status != 200 && put.status != 201 {
@@ -577,5 +590,62 @@ func runOapiC02(h *H) {
 		}
 		res := env.compute(r, wd)
 		h.emit(h.line("C02", "oapi").oreq(r).Bar().oresp(r.stats, res))
+	}
+}
+
+// stochasticRows: a client that stores ALREADY normalised local trust: every non-negative row is divided by its sum.
+// Preference is given to rows on the boundary between two notions of "sums to one": the plain left-to-right sum of
+// the normalised row is exactly 1 while the compensated (KBN) sum is not, or the other way round - an
+// implementation that recognises "already canonical" rows by one and normalises by the other treats them
+// inconsistently.
+func (g *G) stochasticRows(m *mRef) {
+	rows := map[int][]int{}
+	for k, e := range m.entries {
+		rows[e.I] = append(rows[e.I], k)
+	}
+	for _, ks := range rows {
+		neg := false
+		for _, k := range ks {
+			neg = neg || m.entries[k].V < 0
+		}
+		if neg || len(ks) < 2 {
+			continue
+		}
+		sort.Slice(ks, func(a, b int) bool { return m.entries[ks[a]].J < m.entries[ks[b]].J })
+		best := make([]float64, len(ks))
+		found := false
+		for try := 0; try < 300 && !found; try++ {
+			vals := make([]float64, len(ks))
+			sum := 0.0
+			for i := range vals {
+				vals[i] = float64(g.intn(1000)+1) / 1000
+				if try%2 == 1 {
+					vals[i] = g.r.Float64() + 1e-3
+				}
+				sum += vals[i]
+			}
+			plain := 0.0
+			var kbn sparse.KBNSummer
+			for i := range vals {
+				vals[i] /= sum
+				plain += vals[i]
+				kbn.Add(vals[i])
+			}
+			if try == 0 {
+				copy(best, vals)
+			}
+			if (plain == 1) != (kbn.Sum() == 1) {
+				copy(best, vals)
+				found = true
+			}
+		}
+		if found {
+			g.count("stochastic-row:plain-vs-compensated-sum-differ")
+		} else {
+			g.count("stochastic-row:ordinary")
+		}
+		for i, k := range ks {
+			m.entries[k].V = best[i]
+		}
 	}
 }
